@@ -107,7 +107,7 @@ func genRT(r *gen.R, thorough bool) (Cfg, []WStep) {
 	if cfg.WB < 64 && !r.Chance(1, 25) {
 		max = 4000 // tiny buffers: keep the frame count per case affordable
 	}
-	prog := genProgram(r, cfg, ProgOpts{MaxMsgs: 7, MaxSize: max})
+	prog := genProgram(r, cfg, ProgOpts{MaxMsgs: 7, MaxSize: max, FailSource: true})
 	return cfg, prog
 }
 
@@ -117,7 +117,7 @@ func regenFor(r *gen.R, cfg Cfg, thorough bool) (Cfg, []WStep) {
 	if r.Chance(1, 8) {
 		max = 200 << 10
 	}
-	return cfg, genProgram(r, cfg, ProgOpts{MaxMsgs: 7, MaxSize: max})
+	return cfg, genProgram(r, cfg, ProgOpts{MaxMsgs: 7, MaxSize: max, FailSource: true})
 }
 
 func execWrite(cfg Cfg, prog []WStep) *rtRun { return execWriteVia(cfg, prog, false) }
